@@ -404,6 +404,10 @@ func (a *act) globalInit(g *ssa.Global, st *State) Val {
 		st.locals[g] = v
 		return v
 	}
+	if v, ok := e.constSliceGlobal(g); ok {
+		st.locals[g] = v
+		return v
+	}
 	ls := e.layout(et)
 	ts := make([]Term, len(ls))
 	for i, l := range ls {
